@@ -237,6 +237,28 @@ def _run_server(case, bits, other, mode, coroutine, w):
     else:
         _check(v, w, n0, 'unregistered-event', tgt2, ns,
                'nobody-handles-this', 's', [sid, 1])
+    # the registry grows while the server runs: a function handler of higher
+    # precedence than the one that took the event is registered under a
+    # DIFFERENT key, and the same event arrives again
+    order = [(1, ns, ev), (2, ns, '*'), (4, '*', ev), (8, '*', '*')]
+    cur = expected_target(bits, ev, reserved)
+    cur_rank = {('func', 'NS', 'EV'): 0, ('func', 'NS', '*'): 1,
+                ('func', '*', 'EV'): 2, ('func', '*', '*'): 3}.get(
+                    cur[:3] if cur else None, 4)
+    cands = [(b, n2, e2) for i, (b, n2, e2) in enumerate(order)
+             if i < cur_rank and not bits & b and i > 0]
+    if cands:
+        b, n2, e2 = cands[case['seed'] % len(cands)]
+        srv.on(e2, w.make_handler(('s', 'func', n2, e2), plan, coroutine),
+               namespace=n2)
+        if b in (2, 8):
+            bits |= b        # a catch-all: also takes the other events below
+        n0 = len(w.rec.events)
+        peer.send_pkt(sio.EVENT, ns, None, [ev] + case['args'])
+        w.settle()
+        _check(v, w, n0, 'late-registration',
+               expected_target(bits | b, ev, reserved), ns, ev, 's',
+               [sid] + wire_norm(case['args']))
     if mode == 'async':
         # the registry changes while the server runs: a handler of the OTHER
         # kind (plain function <-> coroutine) is registered for exactly this
@@ -256,6 +278,8 @@ def _run_server(case, bits, other, mode, coroutine, w):
     # an event literally named '*': an ordinary event name like any other
     # (it cannot have a handler of its own: on('*') IS the catch-all), so it
     # goes to the catch-all with its name prepended, or is dropped
+    tgt2 = ('func', 'NS', '*', ['event']) if bits & 2 else \
+        ('func', '*', '*', ['event', 'ns']) if bits & 8 else None
     n0 = len(w.rec.events)
     peer.send_pkt(sio.EVENT, ns, None, ['*', 7])
     w.settle()
